@@ -1283,7 +1283,7 @@ func (c *compiler) VisitBinaryExpr(e *ast.BinaryExpr) ast.VisitResult {
 				rhs = c.cbb.NewSIToFP(rhs, ddpfloat)
 				c.latestReturn = c.cbb.NewFDiv(lhs, rhs)
 			case c.ddpfloattyp:
-				fp := c.cbb.NewSIToFP(lhs, ddpfloat)
+				fp := c.cbb.NewUIToFP(lhs, ddpfloat)
 				c.latestReturn = c.cbb.NewFDiv(fp, rhs)
 			case c.ddpbytetyp:
 				lhs = c.cbb.NewUIToFP(lhs, ddpfloat)
